@@ -419,6 +419,79 @@ def none_object_probe(nthreads, accesses):
     return hits
 
 
+NESTED_SRC = """import threading, json
+import lemoncheesecake.api as lcc
+
+BAR = threading.Barrier(2, timeout=5)
+SEEN = []
+
+
+@lcc.suite("s")
+class s:
+    @lcc.test("a")
+    def a(self, client):
+        self._use(client)
+
+    @lcc.test("b")
+    def b(self, client):
+        self._use(client)
+
+    def _use(self, client):
+        try:
+            BAR.wait()
+        except threading.BrokenBarrierError:
+            pass
+        SEEN.append([threading.get_ident(), client["conn_thread"], id(client["conn"])])
+        with open("seen.json", "w") as fh:
+            json.dump(SEEN, fh)
+"""
+NESTED_FX = """import threading
+import lemoncheesecake.api as lcc
+
+
+@lcc.fixture(scope="%(scope)s", per_thread=True)
+def conn():
+    return {"thread": threading.get_ident()}
+
+
+@lcc.fixture(scope="%(scope)s", per_thread=True)
+def client(conn):
+    return {"conn": conn, "conn_thread": conn["thread"]}
+"""
+
+
+def nested_per_thread_probe(scope):
+    """A per-thread fixture built on another per-thread fixture, through the real `lcc run --threads 2`: either the project is
+    refused when it is loaded, or every thread gets a `conn` of its own.  Returns a list of (signature, text)."""
+    import subprocess
+    import lib
+    import tempfile
+    import shutil
+    d = tempfile.mkdtemp(prefix="lccverif_nested_")
+    try:
+        os.mkdir(os.path.join(d, "suites"))
+        os.mkdir(os.path.join(d, "fixtures"))
+        open(os.path.join(d, "suites", "s.py"), "w").write(NESTED_SRC)
+        open(os.path.join(d, "fixtures", "fx.py"), "w").write(NESTED_FX % {"scope": scope})
+        env = dict(os.environ, PYTHONPATH=lib.REPO)
+        p = subprocess.run([lib.PY, "-c", "import sys; from lemoncheesecake.cli.main import main; sys.exit(main(sys.argv[1:]))",
+                            "run", "--threads", "2"], cwd=d, env=env, stdout=subprocess.PIPE, stderr=subprocess.STDOUT, timeout=120)
+        seen_file = os.path.join(d, "seen.json")
+        if not os.path.exists(seen_file):
+            return []          # refused at load time (or nothing ran): no instance was handed to anybody
+        seen = json.load(open(seen_file))
+        hits = []
+        for user, creator, obj in seen:
+            if user != creator:
+                hits.append(("nested-per-thread:foreign-object", "thread %s was handed a per-thread object created by thread %s (%s-scoped "
+                             "per-thread fixture built on a per-thread fixture)" % (user, creator, scope)))
+        if len(set(o for _, _, o in seen)) < len(set(u for u, _, _ in seen)):
+            hits.append(("nested-per-thread:shared-object", "the same per-thread object was handed to several threads: %s" % seen))
+        return hits[:2]
+    finally:
+        shutil.rmtree(d, ignore_errors=True)
+
+
 def oracle_lifetimes(case, ev):
     hits = []
     created = {}
@@ -899,6 +972,16 @@ def check(run):
                     small = c2
             run.violation("oracle:" + h[0], h[1], {"part": "C", "case": small, "events": run_lifetimes(small)})
 
+    for scope in ("session", "suite"):
+        run.evaluations += 1
+        run.count("nested_per_thread_probes")
+        try:
+            nhits = nested_per_thread_probe(scope)
+        except Exception as e:      # noqa: BLE001
+            run.tie_broken("nested per-thread probe could not be run", detail="%s: %s" % (type(e).__name__, str(e)[-600:]))
+            nhits = []
+        for sig, text in nhits:
+            run.violation("oracle:" + sig, text, {"part": "B", "probe": "nested_per_thread_probe", "scope": scope})
     for nthreads, accesses in ((1, 3), (3, 2), (4, 4)):
         run.evaluations += 1
         run.count("none_object_probes")
